@@ -96,6 +96,11 @@ class ValueKeeper
         return getPolicy<EmptyType>() != policy;
     }
 
+    inline bool hasSameTypeAs(const ValueKeeper& other) const
+    {
+        return policy == other.policy;
+    }
+
     template <template <class> class F, class Q> inline bool isCondition(F<Q> cond) const
     {
         Q value = getValue<Q>();
